@@ -1,13 +1,17 @@
 (* C03 -- Emitted change batches keep applied configuration equal to arbitrated state.
    Only statements, each closed by [exact] and followed by Print Assumptions.
 
-   FULL STATEMENT (not yet proved; decided on every run by evaluating Arb.Cases.shadow_run on the
-   implementation's own batches):
+   FULL STATEMENT:
      forall c es, folding [apply_change] over every batch emitted along es from the empty shadow
      yields, after each event, exactly { rkey r |-> attrs r | r in get_resources (state) }.
-   Proved below: the ordering half in full, and the facts the other half rests on. *)
+   Proved below: the ordering half in full; the KEY half in full ([C03_applied_set_is_active_set]: for every
+   history the set of resources that have a configuration applied is exactly the set of active resources --
+   nothing active is missing, nothing removed lingers); and the facts the attribute half rests on.  The
+   attribute half (the configuration of each key is rendered from the current attributes) needs the
+   API-server assumption K3 on whole histories and is decided on every run by evaluating
+   Arb.Cases.shadow_run on the implementation's own batches. *)
 From Coq Require Import List ZArith String Bool.
-From NIC Require Import Base.SMap Arb.Types Arb.Model Arb.Spec Arb.InvProofs Arb.ClassProofs Arb.Cases Arb.ChangeProofs.
+From NIC Require Import Base.SMap Arb.Types Arb.Model Arb.Spec Arb.InvProofs Arb.ListenerProofs Arb.ClassProofs Arb.Cases Arb.ChangeProofs Arb.ShadowProofs.
 Import ListNotations.
 Open Scope Z_scope.
 
@@ -17,6 +21,25 @@ Open Scope Z_scope.
 Theorem C03_removals_first : forall c s e, deletes_first (batch_of (step c s e)) false = true.
 Proof. exact removals_first. Qed.
 Print Assumptions C03_removals_first.
+
+(* The applied set equals the active set, for every history.  [shadow_run c init [] es] applies the batch of
+   every event of [es] in order (delete: the key goes; addOrUpdate: the key is (re)placed).  Its keys are
+   the keys of GetResources() of the state reached.  Hypothesis: every TransportServer event carries a
+   TransportServer that is either TLS passthrough or bound to a listener, not both -- the one fact of
+   ValidateTransportServer the statement depends on (listener name tls-passthrough <-> protocol
+   TLS_PASSTHROUGH); the harness passes only objects the real validator accepted as stored. *)
+Theorem C03_applied_set_is_active_set :
+  forall c es, Forall ev_role es ->
+  forall k, In k (keys (shadow_run c init [] es)) <-> In k (keys (get_resources (run c es))).
+Proof. exact applied_keys_are_active. Qed.
+Print Assumptions C03_applied_set_is_active_set.
+
+(* the host map and the listener map that buildHostsAndResources / buildListenerHosts return are coherent:
+   one value per resource key, an Ingress is marked valid exactly for the hosts it holds, a VirtualServer or
+   TransportServer sits under one key *)
+Theorem C03_host_map_coherent : forall c o, objs_ok o -> coherent (hosts_of_objs c o).
+Proof. exact coherent_hosts_of_objs. Qed.
+Print Assumptions C03_host_map_coherent.
 
 (* the state that the batches must reproduce is a function of the object set (rebuilt from scratch) *)
 Theorem C03_state_function_of_objects :
@@ -52,3 +75,14 @@ Example C03_protocol_flip_ends_with_update :
   map c_op (batch_of (step (mkCfg true true) (run (mkCfg true true) [EGC gc1 false; ETS (tP 1) true true]) (ETS (tC 2) true true)))
   = [Delete; AddOrUpdate].
 Proof. vm_compute. reflexivity. Qed.
+
+(* Non-vacuity of the applied-set theorem: a history in which a host moves from an Ingress to an older
+   VirtualServer and a TransportServer flips from TLS passthrough to a TCP listener satisfies the hypothesis
+   and the shadow ends with exactly the two active resources. *)
+Definition sI := mkIng (mkMeta "ns" "i" "u2" 200 1 0) IRegular ["h.example.com"%string] [] false.
+Definition sV := mkVS (mkMeta "ns" "v" "u3" 100 1 0) "h.example.com" [] None.
+Example C03_applied_set_nonvacuous :
+  let es := [EGC gc1 false; ETS (tP 1) true true; EIng sI true true; EVS sV true true; ETS (tC 2) true true] in
+  Forall ev_role es /\
+  keys (shadow_run (mkCfg true true) init [] es) = ["TransportServer/ns/t"%string; "VirtualServer/ns/v"%string].
+Proof. split; [repeat constructor|vm_compute; reflexivity]. Qed.
